@@ -394,6 +394,7 @@ pub fn random_path(rng: &mut Rng) -> Vec<u8> {
     let n = rng.range(6, 24);
     let pool: &[&[u8]] = &[
         b"a", b"b", b".", b"/", b"-", b"A", b"ab", b"a.b", b"/a", b"\xff", b"\xc3", b"B", b"..", b"*", b"a/b/", b".a",
+        b"\n", b"a\nb", b"\r", b" ",
     ];
     let mut p = vec![];
     for _ in 0..n {
@@ -757,6 +758,8 @@ pub fn run(ctx: &Ctx) -> Report {
                     format!("a{}", lit),
                     format!("{}b", lit),
                     format!("x/{}/y.{}", lit, lit),
+                    format!("new\nline/{}", lit),
+                    format!("{}\n{}", lit, lit),
                 ] {
                     ps.push(p.into_bytes());
                 }
